@@ -14,4 +14,14 @@ echo "exit=$rc"
 rp=$(echo "$out" | grep -o 'replay=[^ ]*' | head -1 | cut -d= -f2)
 if [ "$rc" = 1 ] && [ -n "$rp" ] && [[ "$rp" != */corpus/* ]]; then
   mkdir -p corpus/$prop; cp "$rp" corpus/$prop/$name.json; echo "stored corpus/$prop/$name.json"
+  # on the restored tree the entry must be quiet; a minimised script may end before the system settles and then
+  # trips end-of-run rules: such an entry only counts its recorded class
+  ./check --build-only >/dev/null 2>&1
+  if ! KAISIM_QUICK_S=2 KAISIM_WORKERS=1 ./check "$prop" quick 2>&1 | grep -q "corpus: .* 0 violating"; then
+    python3 - "corpus/$prop/$name.json" <<'PY'
+import json,sys
+d=json.load(open(sys.argv[1])); d["corpus_class_only"]=True; json.dump(d,open(sys.argv[1],"w"),indent=1)
+PY
+    echo "marked class-only"
+  fi
 fi
